@@ -43,9 +43,11 @@ CHECKS = {
              "every behaviour of a small recorded model and `-simulate` behaviours (depth 40) are replayed on the real Python "
              "TimerScheduler and the real Rust TimerContext, and those recordings plus seeded random runs with large periods "
              "and cycle origins up to 2^62 are validated step by step by TLC against TraceTimers.tla (FiredIffBoundary, "
-             "NextInFuture, NeverWhenOff, FireSetsIsr); Python and Rust sequences are also compared directly.",
+             "NextInFuture, NeverWhenOff, FireSetsIsr); Python and Rust sequences are also compared directly. Machine level: whole "
+             "machines running with both timers are saved and restored into fresh machines at every script position (the C16 "
+             "campaign) and the firing cadence after the restore is compared with the uninterrupted run (snapshot_cadence).",
         design_ref="DESIGN.md section 4 (C13)",
-        note="Trusted: TLC, vh harness (timer.rs), drivers in checks/c13.py. Scheduler-level objects; machine-level ticking (WAIT/HALT) is exercised by the C12 machine traces.",
+        note="Trusted: TLC, vh harness (timer.rs), drivers in checks/c13.py. Scheduler-level objects; machine-level ticking (WAIT/HALT) is exercised by the C12 machine traces, snapshot-restore at machine level by the cadence campaign.",
         technique="TLA+ spec (Timers.tla) + TLC exhaustive/simulate + trace validation of recorded Python and Rust executions",
         engine="machine",
     ),
@@ -139,9 +141,9 @@ CHECKS = {
         category="model_checking",
         text="Keyboard.tla (per-key debounce/repeat automaton, strobe registers, KIL computation, event FIFO, plus monitors driven only "
              "by the inputs) is model-checked exhaustively (2-3 keys sharing a row/column, thresholds 2/2/3/2, capacity 3, both "
-             "polarities, depth 7-8): KilSound, KilComplete, EventOrder, Cadence, NoSkippedRepeat, ReleaseFollows, FifoBounded, "
+             "polarities, depth 7-8): KilSound, KilComplete, EventOrder, Cadence, NoSkippedRepeat, ReleaseFollows, ReleaseJustified, FifoBounded, "
              "DropsOldestOnly. TLC behaviours (exhaustive depth 5, `-simulate` depth 60/120) and seeded random histories are executed on "
-             "the real Python KeyboardMatrix/PCE500KeyboardHandler (constructor thresholds) and the real Rust KeyboardMatrix (+ KEYI via "
+             "the real Python KeyboardMatrix/PCE500KeyboardHandler (constructor thresholds) and the real Rust KeyboardMatrix (repeat on and off, strobe-flicker campaign; + KEYI via "
              "write_fifo_to_memory); TraceKeyboard.tla evaluates the property clauses on each implementation's own observations (KIL "
              "value, enqueued events, queue contents, KEYI bit) and compares each step with the automaton (drift).",
         design_ref="DESIGN.md section 4 (C14)",
@@ -154,13 +156,16 @@ CHECKS = {
         text="Interrupts.tla (abstract CPU + IMR/ISR controller with the five-byte frame, RETI, HALT, OFF and both delivery phases: "
              "end-of-step as in the Rust core, start-of-step as in the Python machine; every step executes an instruction chosen from "
              "an alphabet, so all short programs and all interleavings with timer expiries / ON key are explored) is model-checked "
-             "exhaustively to depth 7-9 for DeliverOnlyIfEnabled, FrameOnEntry, NoReentryWhileMasked, PromptWhenEnabled, HaltIdle, "
-             "OffStopsTimers. Its behaviours (exhaustive depth 5, `-simulate` depth 40) and seeded random scripts are executed step by "
-             "step on the real Rust CoreRuntime and the real Python PCE500Emulator (instruction bytes poked at the PC, events injected "
-             "at instruction boundaries); TraceMachine.tla evaluates the clauses of C12 on every recorded step (pushed frame contents, "
-             "delivery counter, registers, power state, timer targets) with monitors for saved frames and expected resume addresses.",
+             "exhaustively to depth 7-9, without and with acknowledge-at-return (RETI clears the status bit of the source the handler was "
+             "entered for - the Rust core's reading), for DeliverOnlyIfEnabled, FrameOnEntry, EnteredForEnabledPending, NoReentryWhileMasked, "
+             "PromptWhenEnabled, StatusNotLost, StillOwed, HaltIdle, OffStopsTimers. Its behaviours (exhaustive depth 5, `-simulate` depth 40) and seeded random scripts are executed step by "
+             "step on the real Rust CoreRuntime and the real Python PCE500Emulator (instruction bytes poked at the PC, timer expiries - also both at once -, ON key and matrix keys "
+             "with strobe / KIL-read instructions injected at instruction boundaries); TraceMachine.tla evaluates the clauses of C12 on every "
+             "recorded step (pushed frame contents, delivery counter and reported source, registers, power state, timer targets) with monitors "
+             "for saved frames (incl. the source each was entered for) and expected resume addresses; StatusNotLost: a status bit goes away only "
+             "by a firmware write or at the RETI of the handler entered for it.",
         design_ref="DESIGN.md section 4 (C12)",
-        note="Trusted: TLC, vh rt module, harness/py/machine_harness.py. Three known findings on the Python machine are listed in known_findings.json. The keyboard-matrix source is covered by C14.",
+        note="Trusted: TLC, vh rt module, harness/py/machine_harness.py. One defect repaired (fix: a24bc1d, Rust RETI acknowledged the live irq_source latch); open findings on the Python machine (master-enable override, OFF = HALT, pending flag not re-armed, stale source attribution) and the Rust core (stray RETI clears a pending bit) are listed in known_findings.json. The debounce automaton itself is covered by C14.",
         technique="TLA+ spec (Interrupts.tla) + TLC exhaustive/simulate + trace validation of both machine models",
         engine="machine",
     ),
@@ -202,10 +207,11 @@ CHECKS = {
         text="MemoryBus.tla (memory as a function from alias classes to bytes; Store/Load of 1-3 bytes; ReadAfterWrite, Frame, "
              "RomImmutable, LEComposition, AliasCoherent) is model-checked exhaustively on a six-cell instance with an alias, a ROM "
              "cell and internal cells. For every implementation (Python PCE500Memory, Rust MemoryImage) and memory configuration "
-             "(bare, ROM image, card 8K/64K/absent, RAM/ROM overlays, mirror off, read-only range) the harness probes the alias "
+             "(bare, ROM image, short ROM image leaving part of the ROM window unbacked, card 8K/64K/absent, RAM/ROM overlays, mirror off, read-only range) the harness probes the alias "
              "structure over 75 byte cells (IMEM edges, 24/32-bit wrap aliases, mirror window, card window, overlay edges) and "
              "TraceMemory.tla judges it (equivalence; internal and external space disjoint) and then validates seeded random "
-             "8/16/24-bit load/store sequences plus a final read-back of every cell against the class-based memory semantics.",
+             "8/16/24-bit load/store sequences plus a final read-back of every cell against the class-based memory semantics; "
+             "RomWindowImmutable: no cell of the ROM window or of a read-only range accepts a store, backed or not.",
         design_ref="DESIGN.md section 4 (C11)",
         note="Trusted: TLC, vh mem module, Python driver. Two known findings (Python IMEM aliasing on a bare bus, Rust multi-byte accesses across region edges) are listed in known_findings.json.",
         technique="TLA+ spec (MemoryBus.tla) + TLC exhaustive + probed alias structure and load/store traces of both buses judged by TLC",
@@ -214,7 +220,7 @@ CHECKS = {
     "C05": dict(
         category="model_checking",
         text="(1) MetaAgrees: TLC (JudgeMeta over SC62015Sem) judges the InstructionInfo of SC62015.get_instruction_info (length, every reported branch) "
-             "against the PC and stack the Python emulator actually reaches, for every branch/call/return encoding x 24 addresses (page boundaries +-3, "
+             "against the PC and stack the Python emulator and the Rust core actually reach, for every branch/call/return encoding (bare and behind each kind of addressing prefix) x 24 addresses (page boundaries +-3, "
              "top of memory, seeded random) x target/displacement palettes x all C/Z values, and for every other documented encoding ('no branch => "
              "continues at address + length'); targets modulo 2^20. (2) Pairing laws: CallRet.tla is an abstract machine over (pc, s, f, imr, frames) "
              "with actions Call, CallF, Ir, stack-neutral body instructions, Ret, RetF, RetI; TLC checks StackShape and ReturnLaw exhaustively to 4 "
